@@ -162,8 +162,11 @@ def compileCheck (tc : TCfg) (strict : Bool) (fuel : Nat) (macros : List (Str ×
 
 /-- `PageTemplate(src, …)(**vars)` -/
 def render (r : RenderReq) : Outcome :=
-  let xml := r.xmlMode.getD (isXmlDoc r.src) && !r.textMode
-  let body := if xml then r.src else normalizeNewlines r.src
+  -- the content type is sniffed from the source whatever the template class: a text that begins with an XML declaration is
+  -- text/xml too and keeps its line ends; the HTML defaults (boolean attributes) concern markup templates only
+  let keep := r.xmlMode.getD (isXmlDoc r.src)
+  let xml := keep && !r.textMode
+  let body := if keep then r.src else normalizeNewlines r.src
   let booleans : List Str := match r.booleanAttrs with
     | some b => b
     | none => if xml then [] else r.htmlBooleans
